@@ -83,6 +83,12 @@ func runContHistory(hist storgen.ContHistory, eng host.Engine, health bool, hook
 		return msg, f
 	}
 	m := storgen.NewContModel(hist.Elem, hist.Key)
+	big := false
+	for _, e := range hist.Execs {
+		for _, o := range e.Ops {
+			big = big || o.J > 30
+		}
+	}
 	for i, e := range hist.Execs {
 		x := m.Step(e)
 		src := e.Source(hist.Elem, hist.Key)
@@ -96,7 +102,9 @@ func runContHistory(hist storgen.ContHistory, eng host.Engine, health bool, hook
 		}
 		digest := h.Ledger.Digest()
 		var r host.Result
-		opts := host.Options{Engine: eng, NoAtreeValidation: health}
+		// the runtime's own atree validation re-verifies the whole container after every mutation (quadratic):
+		// it is kept on only for histories without large bulk operations
+		opts := host.Options{Engine: eng, NoAtreeValidation: health || big}
 		if e.Script {
 			snap := h.Snapshot()
 			r = h.Script(src, nil, opts)
